@@ -71,6 +71,7 @@ def main(argv):
         prop = registry.get(argv[2])
         index = int(argv[3])
         vs = int(os.environ.get('VERIF_SEED', '0'))
+        prop.current_index = index
         case = prop.gen(random.Random(batch.case_seed(vs, argv[2], index)), tier)
         case.update(index=index, verif_seed=vs, wid=0, nworkers=16)
         v = prop.run(case)
